@@ -28,3 +28,6 @@ Defaults.vos Defaults.vok Defaults.required_vos: Defaults.v PyAst.vos
 Sym.vo Sym.glob Sym.v.beautified Sym.required_vo: Sym.v PyAst.vo PyVal.vo PySem.vo XLemmas.vo Unfold.vo
 Sym.vio: Sym.v PyAst.vio PyVal.vio PySem.vio XLemmas.vio Unfold.vio
 Sym.vos Sym.vok Sym.required_vos: Sym.v PyAst.vos PyVal.vos PySem.vos XLemmas.vos Unfold.vos
+ArrN.vo ArrN.glob ArrN.v.beautified ArrN.required_vo: ArrN.v PyAst.vo PyVal.vo PySem.vo XLemmas.vo Unfold.vo Sym.vo
+ArrN.vio: ArrN.v PyAst.vio PyVal.vio PySem.vio XLemmas.vio Unfold.vio Sym.vio
+ArrN.vos ArrN.vok ArrN.required_vos: ArrN.v PyAst.vos PyVal.vos PySem.vos XLemmas.vos Unfold.vos Sym.vos
